@@ -1,6 +1,7 @@
 use crate::engine::{Ctx, Finish, Local};
 
 pub mod c01;
+pub mod c02;
 
 pub type RunFn = fn(&Ctx) -> Finish;
 pub type ReplayFn = fn(&mut Local, &serde_json::Value) -> Result<(), String>;
@@ -8,6 +9,7 @@ pub type ReplayFn = fn(&mut Local, &serde_json::Value) -> Result<(), String>;
 pub fn registry() -> Vec<(&'static str, RunFn, ReplayFn)> {
     vec![
         ("C01", c01::run as RunFn, c01::replay as ReplayFn),
+        ("C02", c02::run as RunFn, c02::replay as ReplayFn),
     ]
 }
 
